@@ -30,6 +30,9 @@ def gen(pid, thorough):
     behs = []
     stats = {"states": 0, "transitions": 0}
     cfgs = ["MC_quick.cfg", "MC_quick2.cfg", "MC_quick3.cfg", "MC_quick4.cfg"] + (["MC_thorough.cfg", "MC_thorough2.cfg"] if thorough else [])
+    only = os.environ.get("VERIF_DEV_UPD_ONLY")   # development aid: restrict to some configurations
+    if only:
+        cfgs = [c for c in cfgs if c[:-4] in only.split(",")]
     for cfg in cfgs:
         sink = []
         r = vlib.run_tlc(pid, "mc_" + cfg[:-4], SPEC, "UpdatesMgr", cfg, timeout=2400, line_sink=sink.append)
@@ -46,6 +49,8 @@ def gen(pid, thorough):
         behs += sink
     n = 500 if thorough else 100
     for cfg, depth in (("Sim_a.cfg", 15), ("Sim_b.cfg", 17), ("Sim_c.cfg", 17), ("Sim_d.cfg", 17)):
+        if only and cfg[:-4] not in only.split(","):
+            continue
         s = vlib.run_tlc(pid, "sim_" + cfg[:-4], SPEC, "UpdatesMgr", cfg, workers=1, timeout=1200,
                          simulate="num=%d" % n, depth=depth, seed_=vlib.seed())
         if s.timeout or s.violation or (not s.ok and not s.lines):
